@@ -39,7 +39,7 @@ PROPS = {
 
 PROPS.update({
     "C01": dict(
-        family="conv", theorems=T("C01", "kernels_are_model", "convert_std", "chain_roundtrip", "latin1_roundtrip", "string_from_std", "string_to_std"),
+        family="conv", theorems=T("C01", "kernels_are_model", "conversion_loops_are_model", "convert_std", "chain_roundtrip", "latin1_roundtrip", "string_from_std", "string_to_std"),
         rule="every Unicode scalar (1,112,064) alone and (thorough) in 25 neighbour contexts through 21 routes x 3 modes as 8192-scalar blocks compared by digest; "
              "14 boundary scalars x 25 contexts, all 256 Latin-1 bytes x 3 positions and seeded random scalar sequences (length 0..40) through every public route "
              "(free functions ptr/buffer, ST::string constructors/set/operator=/from_*/literals/std::basic_string/string_view, to_* members/std strings). "
@@ -50,7 +50,7 @@ PROPS.update({
     ),
     "C02": dict(
         family="conv", variants=DEFAULT_MODE_VARIANTS,
-        theorems=T("C02", "kernels_are_model", "convert_eq_reference", "string_eq_reference", "check_throws_iff", "check_throws_iff_malformed", "string_check",
+        theorems=T("C02", "kernels_are_model", "conversion_loops_are_model", "convert_eq_reference", "string_eq_reference", "check_throws_iff", "check_throws_iff_malformed", "string_check",
                    "subst_never_throws", "subst_output", "string_subst_revalidates", "string_wellformed_unchanged", "tolerated_same_decision",
                    "isolation_utf8", "subst_output_valid_utf32_partial", "subst_output_invalid_utf16_witness", "subst_output_invalid_utf32_witness"),
         partial="'substitute_invalid output always passes check_validity' is proved for ST::string/UTF-8 output unconditionally and for UTF-32 output under the "
@@ -63,12 +63,15 @@ PROPS.update({
         exhaustive={"quick": False, "thorough": False},
     ),
     "C03": dict(
-        family="conv", theorems=T("C03", "decode_steps_read_inside", "decode_steps_progress", "translated_decoders_are_model", "translated_writers_are_model", "convert_total", "convert_null", "measure_eq_fill", "fill_le_measure", "size_is_reference", "flags_never_collide",
+        family="conv", theorems=T("C03", "decode_steps_read_inside", "decode_steps_progress", "translated_decoders_are_model", "translated_writers_are_model", "translated_measure_is_model", "translated_fill_is_model", "translated_fill_is_model_utf16", "translated_validator_is_model", "translated_two_pass_safe_utf16_utf8", "translated_two_pass_safe_utf8_utf16", "translated_two_pass_safe_utf32_utf8", "convert_total", "convert_null", "measure_eq_fill", "fill_le_measure", "size_is_reference", "flags_never_collide",
                                   "string_total", "string_to_total"),
         partial="stores of the real machine are observed by ASan/UBSan on every generated case, not proved. Loads: the decoding steps extract_utf8 / extract_utf16 "
                 "are translated from the C++ on every run (tools/gen_kernels.py) into functions whose loads fault outside the source, and decode_steps_read_inside "
-                "proves no load of any step reaches `end`, for every source and position; the loops around them (twelve measure/convert pairs, validate_utf8, "
-                "cleanup_utf8) are hand-modelled over lists, their loads are carried by the correspondence run with exact-size heap inputs",
+                "proves no load of any step reaches `end`, for every source and position; the twelve measure/convert pairs, the Latin-1 loops and "
+                "validate_utf8 are translated as whole loops too and proved equal to the model (translated_measure_is_model, translated_fill_is_model, "
+                "translated_validator_is_model: in particular they complete without a load outside the source), and translated_two_pass_safe_* state the "
+                "two-pass bound on the translated code itself; cleanup_utf8 and the public wrappers (null/empty shortcut, allocate, raise) stay hand-modelled and "
+                "carried by the correspondence run with exact-size heap inputs",
         rule="the C02 generators (arbitrary garbage in all four source encodings, every truncation point of well-formed text, null pointers with zero length), each "
              "input in an exact-size heap block under ASan+UBSan; observed: exception kind or (size(), units, NUL terminator); aborts/hangs attributed per case",
         exhaustive={"quick": False, "thorough": False},
